@@ -13,7 +13,7 @@ FLAGSETS = {'G': G.G, 'G|D': G.G | G.D, 'G|E': G.G | G.E, 'E': G.E, 'X|G|E': G.X
 def run(chk, tier, seed):
     pats = globrun.small_patterns()
     fsets = ['G', 'G|D', 'G|E', 'X|G|E', 'G|L', 'GL|E', 'G|O', 'X|GL'] if tier == 'quick' else list(FLAGSETS)
-    specs = {k: trees.NAMED[k] for k in (('links', 'basic', 'deep2', 'acyclic') if tier == 'quick' else trees.NAMED)}
+    specs = {k: trees.NAMED[k] for k in (('links', 'basic', 'deep2', 'acyclic', 'relink') if tier == 'quick' else trees.NAMED)}
     rnd = random.Random(seed * 17 + 4)
     for i in range(2 if tier == 'quick' else 30):
         specs[f'random{i}'] = trees.random_spec(rnd, 7)
